@@ -1,11 +1,15 @@
 package stree
 
-// Shared helpers for the stree harnesses (C01-C03): symbolic trees of every shape.
+// Shared helpers for the stree harnesses (C01-C03) that use the exported API only.
 
 type vKT struct {
 	K   int // ordering key (symbolic, order-only)
 	Tag int // identity of the representative (concrete)
 }
+
+// vNodeCountHook counts the nodes actually linked below the root; it is
+// installed by the white-box file (nil when that file had to be dropped).
+var vNodeCountHook func(t *Tree[vKT]) int
 
 func vCmpKT(a, b vKT) int {
 	if a.K < b.K {
@@ -29,88 +33,9 @@ func vCmpKTWide(a, b vKT) int {
 	return 0
 }
 
-// vShape builds a tree with n nodes; the shape is chosen by vChoice (every
-// binary tree shape with n nodes is reachable). Keys are filled in later.
-func vShape(n int) *node[vKT] {
-	if n == 0 {
-		return nil
-	}
-	ls := vChoice("left-size", n)
-	nd := &node[vKT]{}
-	nd.left = vShape(ls)
-	nd.right = vShape(n - 1 - ls)
-	return nd
-}
-
-// vFill assigns strictly increasing symbolic keys in in-order; returns the key list.
-func vFill(nd *node[vKT], keys *[]vKT) {
-	if nd == nil {
-		return
-	}
-	vFill(nd.left, keys)
-	k := vKT{vOrd("k"), len(*keys)}
-	if len(*keys) > 0 {
-		vAssume((*keys)[len(*keys)-1].K < k.K)
-	}
-	nd.X = k
-	*keys = append(*keys, k)
-	vFill(nd.right, keys)
-}
-
-func vHeight(nd *node[vKT]) int { // number of nodes on the longest root-to-leaf path
-	if nd == nil {
-		return 0
-	}
-	l, r := vHeight(nd.left), vHeight(nd.right)
-	if l > r {
-		return l + 1
-	}
-	return r + 1
-}
-
-func vCount(nd *node[vKT]) int {
-	if nd == nil {
-		return 0
-	}
-	return 1 + vCount(nd.left) + vCount(nd.right)
-}
-
-func vWalk(nd *node[vKT], out *[]vKT) {
-	if nd == nil {
-		return
-	}
-	vWalk(nd.left, out)
-	*out = append(*out, nd.X)
-	vWalk(nd.right, out)
-}
-
-func vNodes(nd *node[vKT], out *[]*node[vKT]) {
-	if nd == nil {
-		return
-	}
-	vNodes(nd.left, out)
-	*out = append(*out, nd)
-	vNodes(nd.right, out)
-}
-
-// vMkTree builds a Tree around a root as the package itself would hold it.
-func vMkTree(root *node[vKT], beta, size, max int) *Tree[vKT] {
-	return &Tree[vKT]{root: root, β: beta, compare: vCmpKT, limit: limitFunc(beta), size: size, max: max}
-}
-
 var vBetas = []int{0, 1, 250, 500, 750, 999, 1000}
 
 func vBeta() int { return vBetas[vCase("beta")] }
-
-// vMaxFor picks the tree's high-water mark: any value >= size that the
-// removal rule would not already have rebuilt away: size >= (max*β+1000)/2000.
-func vMaxFor(n, beta int) int {
-	m := n + vChoice("max-extra", 4)
-	if n < (m*beta+maxBalance)/fracLimit {
-		vAssume(false)
-	}
-	return m
-}
 
 func vSameSeq(got, want []vKT) bool {
 	if len(got) != len(want) {
@@ -133,7 +58,9 @@ func vInorderOf(t *Tree[vKT]) []vKT {
 func vCheckTree(t *Tree[vKT], ref []vKT, what string) {
 	vAssert(t.Len() == len(ref), what+": Len")
 	vAssert(t.IsEmpty() == (len(ref) == 0), what+": IsEmpty")
-	vAssert(vCount(t.root) == len(ref), what+": node count equals Len")
+	if vNodeCountHook != nil {
+		vAssert(vNodeCountHook(t) == len(ref), what+": node count equals Len")
+	}
 	got := vInorderOf(t)
 	vAssert(vSameSeq(got, ref), what+": Inorder equals the reference (keys and representatives)")
 	for i := 1; i < len(got); i++ {
